@@ -40,7 +40,11 @@ func c14ForEach(r *rand.Rand) Case {
 			nm := fmt.Sprintf("%d-%s.%s", r.Intn(4), []string{"a", "b"}[r.Intn(2)], []string{"txt", "txt", "yaml"}[r.Intn(3)])
 			_ = os.WriteFile(filepath.Join(dir, nm), []byte("x"), 0o644)
 		}
+		_ = os.MkdirAll(filepath.Join(dir, "sub"), 0o755)
 		op.Glob = filepath.Join(dir, []string{"*.txt", "*", "[0-1]*", "none-*"}[r.Intn(4)])
+		if r.Intn(4) == 0 { // a pattern is matched as it is spelled
+			op.Glob = dir + "/sub/../" + []string{"*.txt", "*.yaml"}[r.Intn(2)]
+		}
 		items, _ = filepath.Glob(op.Glob)
 		sort.Strings(items)
 		op.Items = items
